@@ -80,6 +80,7 @@ var selfMutants = []selfMutant{
 	{Rule: "R-PREC", File: "js/parse.go", Old: "		left = &UnaryExpr{PreIncrToken, p.parseExpression(OpUnary)}\n		precLeft = OpUpdate", New: "		left = &UnaryExpr{PreIncrToken, p.parseExpression(OpUnary)}\n		precLeft = OpUnary", Why: "prefix ++ treated as a UnaryExpression (++a ** b rejected)"},
 	{Rule: "R-INCTX", File: "js/parse.go", Old: "			prevIn := p.in\n			p.in = true\n			left = &IndexExpr{left, p.parseExpression(OpExpr), precLeft, false}", New: "			prevIn := p.in\n			left = &IndexExpr{left, p.parseExpression(OpExpr), precLeft, false}", Why: "index expression parsed without [In]"},
 	{Rule: "R-WALK", File: "js/parse.go", Old: "			newExpr := &NewExpr{p.parseExpression(OpNew), nil}", New: "			newExpr := NewExpr{X: p.parseExpression(OpNew)}", Why: "a node value (not a pointer) is stored in the tree"},
+	{Rule: "T-HASH", File: "html/hash.go", Old: "	if start+n > uint32(len(_Hash_text)) {", New: "	if start+n >= uint32(len(_Hash_text)) {", Props: []string{"C09", "C16"}, Why: "Hash.Bytes() rejects the entry packed last in the text table"},
 	// bounds engine
 	{Rule: "R-BOUNDS", File: "common.go", Old: "		if i >= len(b) || b[i] < '0' || b[i] > '9' {", New: "		if i > len(b) || b[i] < '0' || b[i] > '9' {", Props: []string{"C16"}, Why: "Number reads one byte past the exponent sign"},
 	{Rule: "R-BOUNDS", File: "common.go", Old: "	if num == 0 || num == len(b) {", New: "	if num == 0 {", Props: []string{"C16"}, Why: "Dimension indexes the byte after a number that spans the argument"},
@@ -98,6 +99,7 @@ var selfMutants = []selfMutant{
 	{Rule: "R-PROGRESS", File: "xml/lex.go", Only: "xml", Old: "		} else if c == 0 {\n			return l.r.Shift()\n		}\n		l.r.Move(1)\n	}\n}\n\nfunc (l *Lexer) shiftStartTag", New: "		} else if c == 0 {\n			return l.r.Shift()\n		} else if c == '-' {\n			continue\n		}\n		l.r.Move(1)\n	}\n}\n\nfunc (l *Lexer) shiftStartTag", Why: "comment scanner loops without moving"},
 	{Rule: "R-EOF", File: "json/parse.go", Only: "json", Old: "		} else if c == 0 { // EOF\n			return ErrorGrammar, nil", New: "		} else if c == 0 { // EOF\n			return WhitespaceGrammar, nil", Why: "end of input not reported"},
 	{Rule: "R-ERRMOVE", File: "js/lex.go", Only: "js", Old: "			l.err = parse.NewErrorLexer(l.r, \"invalid number\")\n", New: "", Why: "error token after consuming input without recording an error"},
+	{Rule: "R-ERRMOVE", File: "css/lex.go", Only: "css", Old: "	case 0:\n		if l.r.Err() != nil {\n			return ErrorToken, nil\n		}\n", New: "	case 0:\n		return ErrorToken, nil\n", Props: []string{"C01"}, Why: "any NUL byte is taken for the end of input"},
 	{Rule: "R-ERRSTUCK", File: "js/lex.go", Only: "js", Old: "	l.r.MoveRune() // allow to continue after error\n", New: "", Why: "error path no longer consumes the offending rune"},
 	{Rule: "R-TILE", File: "css/lex.go", Only: "css", Old: "	case ':':\n		l.r.Move(1)", New: "	case ':':\n		l.r.Skip()\n		l.r.Move(1)", Why: "css lexer skips bytes"},
 	{Rule: "R-SPELL", File: "css/lex.go", Only: "css", Old: "		case '^':\n			l.r.Move(2)\n			return PrefixMatchToken", New: "		case '^':\n			l.r.Move(2)\n			return SuffixMatchToken", Why: "'^=' returned as SuffixMatch"},
